@@ -110,6 +110,13 @@ class StepLoop(asyncio.SelectorEventLoop):
                 handle._run()
             handle = None
             self.ticks += 1
+            BUDGET['used'] += 1
+            if BUDGET['limit'] is not None and BUDGET['used'] > BUDGET['limit']:
+                # the code under test keeps the loop busy for ever (e.g. a stepping task that fails and retries without
+                # end): stop the case instead of hanging the check; the runner turns this into a violation
+                BUDGET['limit'] = None
+                BUDGET['tripped'] = f"more than {BUDGET['used'] - 1} event-loop callbacks within one case"
+                raise Livelock(f"more than {BUDGET['used'] - 1} event-loop callbacks ran within one case without the loop becoming quiet")
             return True
         return False
 
@@ -128,6 +135,25 @@ class StepLoop(asyncio.SelectorEventLoop):
         finally:
             if not self.is_closed():
                 self.close()
+
+
+class Livelock(BaseException):
+    """Raised when a single case has run more callbacks / user-code entries than any terminating case needs.  A
+    BaseException on purpose: the code under test must not be able to swallow it as a failure of user code and carry
+    on with the very loop it is meant to break."""
+
+
+# callbacks run within the current case; the runner resets it before every case
+BUDGET = {'used': 0, 'limit': None}
+CASE_LIMIT = 20000
+
+
+def start_case():
+    BUDGET['used'] = 0
+    BUDGET['traced'] = 0
+    BUDGET['tripped'] = None
+    BUDGET['armed'] = True
+    BUDGET['limit'] = CASE_LIMIT
 
 
 @contextlib.contextmanager
